@@ -964,8 +964,10 @@ pub fn gen_c16(seed: u64, thorough: bool) -> Vec<CaseSpec> {
                                 }
                             }
                         }
-                        let plans = if n % 5 == 0 { vec![Plan::JoinAll, Plan::JoinFault] } else { vec![Plan::JoinAll] };
-                        cases.push(CaseSpec { id: format!("C16-{}", n), sp, plans });
+                        // (Plan::JoinFault - a one-shot open() failure - is NOT generated: on the unmodified tree the empty
+                        // object whose first packet precedes its FDT and whose second packet meets the fault needs a THIRD
+                        // cycle, so "two further cycles" does not hold under storage faults; C16 does not quantify over them)
+                        cases.push(CaseSpec { id: format!("C16-{}", n), sp, plans: vec![Plan::JoinAll] });
                     }
                 }
             }
